@@ -14,7 +14,7 @@ pub fn property() -> Property {
     Property {
         id: "C11",
         level: "exploration",
-        rule: "(1) hosts = ALL strings of 1..3 labels over {a,b,ab,ba,xa} + IPv4/bracketed IPv6 literals + mixed-case spellings + four names written with a trailing dot; no-proxy lists = ALL lists of <= 2 entries over {'', a, .a, b.a, A, ' a ', a., xa, an IPv4 literal, a bracketed IPv6 literal, ' .b'}; x scheme x {both proxies, http only, disabled flag}: exhaustive, once through ProxySettingsBuilder (entries verbatim) and once through the NO_PROXY environment variable (entries normalised as the statement says). (2) environment: assignments of the 8 variables {http,https,all,no}_proxy x lower/upper case over 7 values each {unset, empty, blank, valid http URL, valid https URL, socks5 URL, garbage, host:port without a scheme (name / IPv4)} for the six proxy variables, 7 values for the two no-proxy variables - all 9^6 x 7^2 = 26 040 609 in thorough, 20 000 sampled in quick; each shard process owns its environment; while each environment is in force a default-settings request (free function / fresh Session alternating) is sent as well and the address it dials must be an acceptable decision for THAT environment (thousands of different environments per process: stale process-wide state shows). (3) end-to-end send() through hook H1: the address dialled agrees with the decision. The request URL is decorated per case (explicit port, default port spelled out, userinfo, look-alike host text in path/query/fragment): only scheme and host decide. 'builder-sequences': EVERY sequence of four builder calls over {http_proxy(A), http_proxy(B), http_proxy(None), https_proxy(A), https_proxy(None)} plus a clone of the builder taken after two calls, starting from builder() / new() / Default::default(), with and without proxy variables in the environment at that moment: the builder starts empty and the last call for a scheme decides. The workload runs in the native-tls and in the rustls flavour. Oracle: reference decision function and environment reader written from the statement, returning the SET of acceptable outcomes (singleton except in documented gray cases). Non-trivial: a proxy is configured for the scheme; distinct = hash(configuration, host).",
+        rule: "(1) hosts = ALL strings of 1..3 labels over {a,b,ab,ba,xa} + IPv4/bracketed IPv6 literals + mixed-case spellings + four names written with a trailing dot + names whose last label is an entry written twice (b.aa, b.abab); no-proxy lists = ALL lists of <= 2 entries over {'', a, .a, b.a, A, ' a ', a., xa, an IPv4 literal, a bracketed IPv6 literal, ' .b'}; x scheme x {both proxies, http only, disabled flag}: exhaustive, once through ProxySettingsBuilder (entries verbatim) and once through the NO_PROXY environment variable (entries normalised as the statement says). (2) environment: assignments of the 8 variables {http,https,all,no}_proxy x lower/upper case over 7 values each {unset, empty, blank, valid http URL, valid https URL, socks5 URL, garbage, host:port without a scheme (name / IPv4)} for the six proxy variables, 8 values for the two no-proxy variables (one of them a list that merely begins with an asterisk) - all 9^6 x 8^2 = 34 012 224 in thorough, 20 000 sampled in quick; each shard process owns its environment; while each environment is in force a default-settings request (free function / fresh Session alternating) is sent as well and the address it dials must be an acceptable decision for THAT environment (thousands of different environments per process: stale process-wide state shows). (3) end-to-end send() through hook H1: the address dialled agrees with the decision. The request URL is decorated per case (explicit port, default port spelled out, userinfo, look-alike host text in path/query/fragment): only scheme and host decide. 'builder-sequences': EVERY sequence of four builder calls over {http_proxy(A), http_proxy(B), http_proxy(None), https_proxy(A), https_proxy(None)} plus a clone of the builder taken after two calls, starting from builder() / new() / Default::default(), with and without proxy variables in the environment at that moment: the builder starts empty and the last call for a scheme decides. The workload runs in the native-tls and in the rustls flavour. Oracle: reference decision function and environment reader written from the statement, returning the SET of acceptable outcomes (singleton except in documented gray cases). Non-trivial: a proxy is configured for the scheme; distinct = hash(configuration, host).",
         assumptions: &["gray (executed, not judged): builder entries with blanks / leading or trailing dots / wildcards, sub-'domains' of IP literals, a blank or invalid lower-case variable next to a valid upper-case one, padded or listed '*' in NO_PROXY"],
         min_nontrivial: |t| t.pick(20_000, 200_000),
         gens,
@@ -38,7 +38,7 @@ fn hosts() -> Vec<String> {
         }
     }
     // (the last four are written with the root label's trailing dot)
-    v.extend(["192.0.2.7", "192.0.2.77", "[::1]", "[2001:db8::1]", "A", "B.A", "Xa", "b.A", "AB.B.A", "a.", "b.a.", "xa.", "ba.b."].iter().map(|s| s.to_string()));
+    v.extend(["192.0.2.7", "192.0.2.77", "[::1]", "[2001:db8::1]", "A", "B.A", "Xa", "b.A", "AB.B.A", "a.", "b.a.", "xa.", "ba.b.", "b.aa", "x.aaa", "b.abab", "ab.baba"].iter().map(|s| s.to_string()));
     v
 }
 
@@ -303,7 +303,7 @@ fn run_hostlist_env(ctx: &mut Ctx, _rng: &mut Rng, index: u64) {
 }
 
 /// 9 values for each of the six proxy variables x 7 for each of the two no-proxy variables
-const ENV_SPACE: u64 = 9 * 9 * 9 * 9 * 9 * 9 * 7 * 7;
+const ENV_SPACE: u64 = 9 * 9 * 9 * 9 * 9 * 9 * 8 * 8;
 
 fn proxy_value(var: usize, k: u64) -> Option<String> {
     match k {
@@ -328,6 +328,8 @@ fn noproxy_value(k: u64) -> Option<String> {
         3 => Some("*".to_owned()),
         4 => Some("a.test".to_owned()),
         5 => Some(".a.test,  .B.test ".to_owned()),
+        // a list that merely BEGINS with an asterisk is not the wildcard `*`
+        7 => Some("*.corp.example,zzz.test".to_owned()),
         _ => Some("zzz.test,,".to_owned()),
     }
 }
@@ -338,7 +340,7 @@ fn run_env(ctx: &mut Ctx, rng: &mut Rng, index: u64) {
     let mut digits = [0u64; 8];
     let mut c = code;
     for (i, d) in digits.iter_mut().enumerate() {
-        let base = if i < 6 { 9 } else { 7 };
+        let base = if i < 6 { 9 } else { 8 };
         *d = c % base;
         c /= base;
     }
@@ -387,6 +389,9 @@ fn run_env(ctx: &mut Ctx, rng: &mut Rng, index: u64) {
             // acceptable decisions over the set of acceptable proxy pairs
             let mut acceptable: Vec<Option<String>> = Vec::new();
             let mut gray = false;
+            // (an entry `*.suffix` is of the gray kind - glob or literal? - but whatever it means it
+            //  cannot concern a host that does not end in that suffix: dropped for such hosts)
+            let entries: Vec<String> = entries.into_iter().filter(|e| !(e.starts_with("*.") && !e[2..].contains('*') && !host.ends_with(&e[2..]))).collect();
             for o in &outcomes {
                 let cfg = ProxyCfg { http: o.http.clone(), https: o.https.clone(), disabled, no_proxy: entries.clone() };
                 match proxy::decide(&cfg, scheme, host) {
